@@ -26,7 +26,7 @@ RULE = (
     "path or recombined crossing boundaries, and the mutation moved something."
 )
 MANDATORY = ["op:binary", "op:unary", "op:query", "op:copy", "op:plot", "op:constructor", "shortcut", "recombined",
-             "mutate:result", "mutate:operand", "mutation:move", "mutation:scale", "mutation:rotate", "mutation:invert"]
+             "mutate:result", "mutate:operand", "apart-bounded-operands:union", "mutation:move", "mutation:scale", "mutation:rotate", "mutation:invert"]
 
 BINARY = ["|", "&", "-", "^", "+", "*"]
 UNARY = ["~", "neg"]
@@ -184,6 +184,8 @@ def judge(ctx, case):
     shortcut = sa["k"] in ("empty", "whole") or sb["k"] in ("empty", "whole") or ncross == 0 or verdict == "identical"
     strata = sorted(groups) + ["shortcut" if shortcut else "recombined", "mutation:" + mut["k"],
                                "mutate:result" if target == "result" else "mutate:operand"]
+    if case.get("config") == "apart" and ops[0] in BINARY and ca and cb and all(lib.spec_moment(x) > 0 for x in (sa, sb)):
+        strata.append("apart-bounded-operands:" + ("union" if ops[0] in ("|", "+") else "other"))
     ctx.evaluated(case, True, strata)
     where = "+".join(ops)
     all_rational = all(rg.curve_is_exact(c) and rg.curve_is_polygon(c) for c in ca + cb)
@@ -265,9 +267,38 @@ def cases(draw, curved):
     return base
 
 
+@st.composite
+def apart_cases(draw):
+    """two bounded operands with disjoint bounding boxes, one binary operator
+    (half of them a union), then the mutation: every path that could hand the
+    operands' own components back to the caller"""
+    nk = draw(st.sampled_from(S.NUMKINDS))
+    R = S.base_radius(nk)
+    kinds = ["simple+", "simple+", "connected+", "disjoint+"]
+    a = draw(S.shape_spec(nk, (1,), kinds=kinds, templates=True))
+    off = (2.6 * R * draw(st.sampled_from([-1, 1])), draw(st.floats(-1.0, 1.0)) * R)
+    if nk in ("int", "mixed"):
+        off = (float(round(off[0])), float(round(off[1])))
+    b = draw(S.shape_spec(nk, (1,), center=off, R=R, kinds=kinds, templates=False))
+    base = {"a": a, "b": b, "config": "apart", "us": draw(st.lists(st.floats(0.0, 1.0), min_size=12, max_size=12)), "nk": nk, "deg": [1]}
+    first = draw(st.sampled_from(["|", "+", "|", "&", "-", "^", "*"]))
+    ops = [first] + ([draw(st.sampled_from(BINARY + COPY))] if draw(st.booleans()) else [])
+    k = draw(st.sampled_from(["move", "scale", "rotate", "invert"]))
+    mut = {"k": k}
+    if k == "move":
+        mut["v"] = [draw(st.integers(1, 9)), draw(st.integers(-9, 9))]
+    elif k == "scale":
+        mut["s"] = [draw(st.integers(2, 4)), draw(st.integers(2, 4))]
+    elif k == "rotate":
+        mut["a"] = draw(st.sampled_from([0.5, 1.0, 2.5]))
+    base.update(ops=ops, mut=mut, target=draw(st.sampled_from(["result", "A", "B"])))
+    return base
+
+
 def parts(tier):
     q = tier == "quick"
     return [
         Part("polygons", judge, cases(False), n=1500 if q else 50000, budget_s=80 if q else 2400),
+        Part("apart", judge, apart_cases(), n=240 if q else 6000, budget_s=40 if q else 900),
         Part("curved", judge, cases(True), n=64 if q else 1500, budget_s=80 if q else 3000, shards=16),
     ]
